@@ -2,7 +2,8 @@
    Statements only; every proof is [exact <lemma>]. *)
 From Coq Require Import String.
 From Coq Require Import NArith List.
-From PyIpmi Require Import Lib.Res Lib.Bytes Model.Ipmb Model.Bridge Proofs.IpmbProofs Proofs.BridgeProofs.
+From PyIpmi Require Import Lib.Res Lib.Bytes Model.Ipmb Model.Bridge Model.RxLoop
+     Proofs.IpmbProofs Proofs.BridgeProofs Proofs.RxLoopProofs.
 Import ListNotations.
 Open Scope N_scope.
 
@@ -61,6 +62,23 @@ Print Assumptions C09_hop_error.
 Theorem C09_ack_empty : forall ws w, decode_bridged (wrap_all ws (wrap_reply w 0 [])) = Ok [].
 Proof. exact bridged_ack. Qed.
 Print Assumptions C09_ack_empty.
+
+(* ... and the LAN transport (C04's receive-loop model, repaired or as found) then waits
+   for the forwarded reply: the acknowledgement [a] is classified as "nothing yet", and a
+   request served with [a] as the next datagram behaves EXACTLY as if [a] had not arrived -
+   same outcome, same counters (no retry consumed), no retransmission, same unread events.
+   It is never returned as the answer. *)
+Theorem C09_ack_classified : forall h o ws w, classify h o (wrap_all ws (wrap_reply w 0 [])) = VAck.
+Proof. exact classify_ack. Qed.
+Print Assumptions C09_ack_classified.
+
+Theorem C09_ack_waits : forall requeue st r a s h tx,
+  m_queue st = [] ->
+  rmcp_prepare (inc_seq (m_next_seq st)) (m_slave st) r = Ok (h, tx) ->
+  classify h (rmcp_opts (m_ignore_rq_seq st)) a = VAck ->
+  rmcp_send_receive_gen requeue st r (Frame a :: s) = rmcp_send_receive_gen requeue st r s.
+Proof. exact rmcp_ack_waits. Qed.
+Print Assumptions C09_ack_waits.
 
 (* decode_bridged_message is total: the loop terminates on every byte string (the
    model's fuel never runs out), its only errors are IndexError (< 6 bytes),
